@@ -9,6 +9,7 @@ import (
 	"os"
 	"path"
 	"path/filepath"
+	"sort"
 	"strings"
 	"sync"
 	"time"
@@ -185,6 +186,12 @@ func (db *SingleBucketBackend) getBucketWithArbitraryPrefixLocked(bucket string,
 	}); err != nil {
 		return nil, err
 	}
+
+	// The walk visits one directory after the other; S3 lists keys in the
+	// byte order of the whole key ("a.txt" before "a/b").
+	sort.Slice(response.Contents, func(i, j int) bool {
+		return response.Contents[i].Key < response.Contents[j].Key
+	})
 
 	return response, nil
 }
